@@ -47,6 +47,8 @@ class Ctx:
         self.inconclusive: list = []
         self.extra: dict = {}
         self.max_samples = 3
+        self.classify = None
+        self.per_key: Counter = Counter()
 
     # ---- workload helpers
     def rng(self, *parts: Any):
@@ -79,9 +81,18 @@ class Ctx:
             self.observed[prefix + str(k)] += v
 
     def violation(self, witness: dict):
-        if len(self.violations) < 40:
+        """Record a violation witness; capped per mechanism so known findings cannot crowd out fresh ones."""
+        key = None
+        if self.classify is not None:
+            try:
+                key = self.classify(witness)
+            except Exception:  # noqa: BLE001
+                key = None
+        self.per_key[key] += 1
+        if self.per_key[key] <= (40 if key is None else 4):
             self.violations.append(witness)
         self.observed["violations-raw"] += 1
+        self.observed[f"violations-raw:{key}"] += 1
 
     def inconc(self, reason: str):
         if len(self.inconclusive) < 20:
@@ -112,6 +123,7 @@ def shard_main(argv: list[str]) -> int:
 
         cov = coverage.start()
         mod = prop_module(pid)
+        ctx.classify = getattr(mod, "classify", None)
         mod.run_shard(ctx)
     except env.EnvError as e:
         ctx.inconc(f"environment: {e}")
@@ -232,7 +244,7 @@ def conclude(pid: str, mod, tier: str, seed: int, merged: dict, wall: float) -> 
                 key = None
         w["mechanism"] = key
         if key is not None and key in known:
-            known_hits[key] += 1
+            known_hits[key] = merged["observed"].get(f"violations-raw:{key}", 0) or known_hits[key] + 1
             known_example.setdefault(key, w)
         else:
             fresh.append(w)
@@ -314,7 +326,7 @@ def conclude(pid: str, mod, tier: str, seed: int, merged: dict, wall: float) -> 
         for r in merged["inconclusive"][:5]:
             print(f"INCONCLUSIVE property={pid} reason={r[:400]}")
         return 2
-    print(f"[{pid}] held on everything explored")
+    print(f"[{pid}] held on everything explored" + (" (apart from the known findings listed above)" if known_hits else ""))
     return 0
 
 
